@@ -28,7 +28,7 @@ TraceInit == /\ Init /\ MonInit /\ l = 1
 
 \* the step's outputs are exactly the next events of the trace
 Projected(o) == SelectSeq(o, LAMBDA e : e[1] \in ProjKinds)
-Consume == LET po == Projected(obs') IN
+Consume == LET po == Projected(Deliver(S.tsubs, obs')) IN
            /\ l + Len(po) - 1 <= Len(T)
            /\ \A i \in 1..Len(po) : T[l + i - 1] = po[i]
            /\ l' = l + Len(po)
